@@ -21,6 +21,7 @@ import Vicut.Model.VimSpec
 import Vicut.Model.Motions
 import Vicut.Model.Words
 import Vicut.Model.Delims
+import Vicut.Model.Block
 
 open Lean Vicut
 
@@ -605,6 +606,12 @@ def opTextObjQuote (req : Json) : Json :=
   let s : MS := ⟨gsOf req, jnat req "cur", jbool req "excl", false, ws⟩
   Json.mkObj [("mk", mkJson (Quote.evalTextObjQuote s (jstr req "q").toList (jbool req "around")))]
 
+/-- `{"op":"block_windows","gs":[..],"anchor":n,"cur":n}`: the windows of a visual-block selection -/
+def opBlockWindows (req : Json) : Json :=
+  match Block.windows (gsOf req) (jnat req "anchor") (jnat req "cur") with
+  | none => Json.mkObj [("panic", "index_col: no such line")]
+  | some ws => Json.mkObj [("windows", Json.arr (ws.map (fun w => Json.arr #[w.1, w.2])).toArray)]
+
 /-- `{"op":"sentence","k":[0..4],"cur":n,"count":n,"fwd":b,"has_verb":b}` -/
 def opSentence (req : Json) : Json :=
   let k : List Nat := (jarr req "k").toList.map (fun x => x.getNat?.toOption.getD 0)
@@ -641,6 +648,7 @@ def dispatch (req : Json) : Json :=
   | "unmatched" => opUnmatched req
   | "textobj_delim" => opTextObjDelim req
   | "textobj_quote" => opTextObjQuote req
+  | "block_windows" => opBlockWindows req
   | op => Json.mkObj [("err", Json.str s!"unknown op {op}")]
 
 partial def loop (h : IO.FS.Stream) (out : IO.FS.Stream) : IO Unit := do
